@@ -9,6 +9,7 @@ package server
 
 import (
 	"fmt"
+	"sort"
 	"strings"
 	"sync"
 	"testing"
@@ -20,6 +21,7 @@ type c23Viol struct {
 	Clause string `json:"clause"`
 	Step   int    `json:"step"`
 	Detail string `json:"detail"`
+	Fault  string `json:"fault"`
 	Last   string `json:"last"` // last pin-changing event before the violation: none | L (reload between commands) | LM (reload during a command) | PF (failed ping)
 	InTx   bool   `json:"in_tx"`
 }
@@ -46,7 +48,7 @@ func c23Judge(tr *txTrace) []c23Viol {
 			return
 		}
 		seen[clause] = true
-		out = append(out, c23Viol{Clause: clause, Step: step, Detail: detail, Last: last, InTx: lastInTx})
+		out = append(out, c23Viol{Clause: clause, Step: step, Detail: detail, Last: last, InTx: lastInTx, Fault: c23FaultTag(tr)})
 	}
 	reloads := 0
 	for _, st := range tr.Steps {
@@ -64,6 +66,13 @@ func c23Judge(tr *txTrace) []c23Viol {
 	pending := map[int64]bool{} // old pins that the next command has to release
 	expectReject, nextReject := false, false
 	inTx := false
+	// an injected backend fault (error / connection closed): the connection it hit may be
+	// dropped by the session from the faulted command on, and once a connection was closed
+	// under the session a disconnect (ErrBadConn ends the session) is no surprise
+	faultStep, faultConn, faultClosed := -1, int64(0), false
+	if f := tr.Case.Fault; f != nil && tr.Fired && (f.Kind == "err" || f.Kind == "close") {
+		faultStep, faultConn, faultClosed = f.Cmd, tr.FiredEv.Conn, f.Kind == "close"
+	}
 	ended := false
 	for i, st := range tr.Steps {
 		op := st.Step.Op
@@ -91,7 +100,7 @@ func c23Judge(tr *txTrace) []c23Viol {
 		rejecting := expectReject
 		pingFailed, reloadedMid := false, false
 		for _, e := range st.Events {
-			if e.Fault == "pingfail" {
+			if e.Fault == "pingfail" || (e.Op == "ping" && (e.Fault == "err" || e.Fault == "close")) {
 				pingFailed = true
 			}
 			if e.Fault == "reload" {
@@ -101,7 +110,7 @@ func c23Judge(tr *txTrace) []c23Viol {
 		if pingFailed {
 			last, lastInTx = "PF", inTx
 		}
-		if st.Reply.Kind == "lost" && !pingFailed {
+		if st.Reply.Kind == "lost" && !pingFailed && !(faultClosed && i >= faultStep) {
 			// the server dropped the client without telling it why
 			add("unexpected_disconnect", i, fmt.Sprintf("%s: connection closed by the server (%s)", op, st.Reply.Msg))
 		} else if rejecting {
@@ -124,7 +133,7 @@ func c23Judge(tr *txTrace) []c23Viol {
 				}
 				if pending[e.Conn] {
 					delete(pending, e.Conn)
-				} else if !(releaseOK || pingFailed) {
+				} else if !(releaseOK || pingFailed || (faultStep >= 0 && i >= faultStep && e.Conn == faultConn)) {
 					add("unpinned", i, e.String())
 				}
 				for s, c := range pinned {
@@ -208,7 +217,19 @@ func c23Judge(tr *txTrace) []c23Viol {
 }
 
 func c23Sig(v c23Viol) string {
-	return fmt.Sprintf("%s|last=%s|intx=%d", v.Clause, v.Last, txB2i(v.InTx))
+	return fmt.Sprintf("%s|last=%s|intx=%d%s", v.Clause, v.Last, txB2i(v.InTx), v.Fault)
+}
+
+// c23FaultTag is the fault part of a signature: kind and kind of backend call hit.
+func c23FaultTag(tr *txTrace) string {
+	if f := tr.Case.Fault; f != nil && tr.Fired && (f.Kind == "err" || f.Kind == "close") {
+		op := f.Op
+		if op == "exec" {
+			op = "exec@" + txClass(tr.Case.Steps[f.Cmd].Op)
+		}
+		return "|f=" + f.Kind + ":" + op
+	}
+	return ""
 }
 
 type c23Witness struct {
@@ -256,7 +277,7 @@ func c23Shrink(tr *txTrace, v c23Viol) (*txTrace, c23Viol) {
 	return cur, curV
 }
 
-var c23Alpha = []string{"ru", "rs1", "ws2", "wu", "begin", "commit", "rollback", "ac0", "ac1", "ping", "pingfail", "reload", "fl", "sr", "sm"}
+var c23Alpha = []string{"ru", "rs1", "ws2", "wu", "begin", "commit", "rollback", "ac0", "ac1", "ping", "pingfail", "reload", "fl", "sr", "sm", "sp", "rbsp"}
 var c23Core = []string{"ru", "rs1", "ws2", "begin", "commit", "ping", "pingfail", "reload", "sr"}
 
 func c23Random(r *kit.Rand, n, maxLen int) []*txCase {
@@ -334,6 +355,55 @@ func c23Curated() []*txCase {
 	return out
 }
 
+// c23FaultedCases: for every begin / autocommit / commit / rollback / ping call, every
+// savepoint execute and the first execute of every command of a fault-free run, one re-run
+// with that call failing and one with it closing the connection.
+func c23FaultedCases(tr *txTrace) []*txCase {
+	var out []*txCase
+	for _, p := range txFaultPositions(tr) {
+		switch p.F.Op {
+		case "begin", "autocommit", "commit", "rollback", "ping":
+		case "exec":
+			if p.F.N != 0 {
+				continue
+			}
+		default:
+			continue
+		}
+		for _, k := range []string{"err", "close"} {
+			d := tr.Case.clone()
+			f := p.F
+			f.Kind = k
+			d.Fault = &f
+			out = append(out, d)
+		}
+	}
+	return out
+}
+
+// c23FaultBase are fixed sequences whose fault positions are enumerated in both tiers: a
+// slice touched for the first time under autocommit=0 / inside a transaction (the SET
+// autocommit / BEGIN replay on the fresh connection), transaction control and savepoints on
+// pinned connections, then disconnect.
+func c23FaultBase() []*txCase {
+	var out []*txCase
+	for _, u := range []string{"rw", "ro"} {
+		for _, ops := range [][]string{
+			{"ac0", "ru", "ru", "rs1", "commit", "ru"},
+			{"begin", "ru", "rs1", "ru", "rollback", "ru"},
+			{"ru", "begin", "rs1", "sp", "rbsp", "commit", "rs1"},
+			{"ws2", "ac0", "ru", "ac1", "ru", "ping"},
+			{"ws2", "begin", "commit", "begin", "rollback"},
+			{"ru", "ac0", "sp", "ping", "ru"},
+		} {
+			for _, end := range []string{"quit", "disc"} {
+				out = append(out, &txCase{Mode: "k", Users: []string{u}, Steps: txSteps(ops, end)})
+			}
+		}
+	}
+	return out
+}
+
 func c23Exhaustive(n int) []*txCase {
 	var out []*txCase
 	var rec func(prefix []string)
@@ -353,7 +423,7 @@ func c23Exhaustive(n int) []*txCase {
 }
 
 func TestVerif_C23(t *testing.T) {
-	rec := kit.Start("C23", "exploration", "keep-session command sequences (length <= 10) over statements on slice-0 / slice-1 / both slices, BEGIN, COMMIT, ROLLBACK, SET autocommit 0/1, COM_FIELD_LIST, COM_PING succeeding or failing on a backend, statements answered with streamed / multi-result sets, namespace reloads on the real Manager between two commands and (one random case in three) WHILE a backend call of a command is in flight, ending in COM_QUIT or an abrupt disconnect; thorough adds every sequence up to length 5 over a 9-command core; a case is non-trivial when a connection was pinned, keyed by the ordered command classes with reload / failed ping / transaction state marked")
+	rec := kit.Start("C23", "exploration", "keep-session command sequences (length <= 10) over statements on slice-0 / slice-1 / both slices, BEGIN, COMMIT, ROLLBACK, SET autocommit 0/1, COM_FIELD_LIST, COM_PING succeeding or failing on a backend, statements answered with streamed / multi-result sets, SAVEPOINT / ROLLBACK TO, namespace reloads on the real Manager between two commands and (one random case in three) WHILE a backend call of a command is in flight, ending in COM_QUIT or an abrupt disconnect; for fixed base sequences and a sample of the others every transaction-control / savepoint / ping / first-execute backend call is additionally failed or made to close its connection; thorough adds every sequence up to length 5 over a 9-command core; a case is non-trivial when a connection was pinned, keyed by the ordered command classes with reload / failed ping / transaction state marked")
 	defer rec.Finish(t)
 	rec.Assume("a failed COM_PING (client receives an error) is accepted as a point where the pins may be dropped; everywhere else a pin may only change at a namespace reload or at disconnect")
 	env := txStartEnv(t)
@@ -467,7 +537,42 @@ func TestVerif_C23(t *testing.T) {
 	}
 	cases = append(cases, c23Curated()...)
 	rec.Set("sequences", len(cases))
-	env.txRunAll(cases, judge)
+	// fault enumeration on a subset: every transaction-control / savepoint / ping call (and
+	// the first execute per command) of the fault-free run fails or closes its connection
+	nFault := kit.N(70, 1500)
+	var mu2 sync.Mutex
+	var traces []*txTrace
+	env.txRunAll(cases, func(tr *txTrace) {
+		judge(tr)
+		if tr.Disturbed == "" && tr.Case.Fault == nil {
+			mu2.Lock()
+			traces = append(traces, tr)
+			mu2.Unlock()
+		}
+	})
+	sort.Slice(traces, func(i, j int) bool { return traces[i].Case.String() < traces[j].Case.String() })
+	fr := kit.SubRand(seed, "C23/faults")
+	var faulted []*txCase
+	for _, c := range c23FaultBase() {
+		tr := env.ws[0].Run(c)
+		judge(tr)
+		if tr.Disturbed == "" {
+			faulted = append(faulted, c23FaultedCases(tr)...)
+		}
+	}
+	if nFault > len(traces) {
+		nFault = len(traces)
+	}
+	for _, i := range fr.Perm(len(traces))[:nFault] {
+		faulted = append(faulted, c23FaultedCases(traces[i])...)
+	}
+	rec.Set("faulted_runs", len(faulted))
+	env.txRunAll(faulted, func(tr *txTrace) {
+		if tr.Disturbed == "" && tr.Fired {
+			rec.Count("fault."+tr.Case.Fault.Kind+"."+tr.Case.Fault.Op, 1)
+		}
+		judge(tr)
+	})
 	rec.Set("runs_with_pinned_connection", pinnedRuns)
 	rec.Set("reloads_outside_transaction", reloadRuns)
 	rec.Set("reloads_inside_transaction", txReloadRuns)
